@@ -22,12 +22,13 @@ FILES = ["cspuz/expr.py", "cspuz/array.py", "cspuz/constraints.py", "cspuz/solve
 class GraphWorld:
     def __init__(self, repo: Repo, use_graph_primitive: bool = False, use_graph_division_primitive: bool = False):
         self.repo = repo
-        self.cw = ClassWorld([repo.mod(f) for f in FILES])
+        self.config = Obj(["Config"], use_graph_primitive=use_graph_primitive,
+                          use_graph_division_primitive=use_graph_division_primitive, default_backend="z3", name="config")
+        # config exists while module-level statements are evaluated ("import time")
+        self.cw = ClassWorld([repo.mod(f) for f in FILES], pre_env={"config": self.config})
         self.cw.ev.max_steps = 400000
         g = self.cw.genv
         g["Op"] = Tag("Op")
-        self.config = Obj(["Config"], use_graph_primitive=use_graph_primitive,
-                          use_graph_division_primitive=use_graph_division_primitive, default_backend="z3", name="config")
         g["config"] = self.config
         g["flatten_iterator"] = self.flatten
         g["warnings"] = Tag("warnings")
